@@ -405,7 +405,7 @@ W_F2 = ("natoms 2\nnew\nconfig EOF\n" + XZ + HARM % ("h1", "") + "EOF\n"
         "pos 1 0 0 1.0\nstep\nscript cv bias h1 delete\npos 1 0 0 3.0\nstep\necho END\n")
 W_F2_REF = ("natoms 2\nnew\nconfig EOF\n" + XZ + "EOF\npos 1 0 0 1.0\nstep\npos 1 0 0 3.0\nstep\necho END\n")
 # colvar x with outputTotalForce: feature 20 (output_total_force, user) requires 7 (total_force, dynamic, ref_count 1)
-W_F3 = ("natoms 2\nnew\nconfig EOF\n" + XZ.replace("  name x\n", "  name x\n  outputTotalForce on\n") + "EOF\n"
+W_F3 = ("natoms 2\nnew\nconfig EOF\ncolvar {\n  name x\n  outputTotalForce on\n  distance {\n    group1 { atomNumbers 1 }\n    group2 { atomNumbers 2 }\n  }\n}\nEOF\n"
         "dumpdeps\nscriptset colvar x 7 0\ndumpdeps\necho END\n")
 # failed enable: colvar d (distanceVec, not scalar): enabling 4 (collect_gradient) requires 3 (gradient: taken), then 34 (scalar: fails)
 W_F4 = ("natoms 3\nnew\nconfig EOF\ncolvar {\n  name d\n  distanceVec {\n    group1 { atomNumbers 1 }\n    group2 { atomNumbers 2 }\n  }\n}\nEOF\n"
